@@ -261,3 +261,18 @@ package annotations
 //@   lemma first: result != nil ==> exists i int, k int :: 0 <= i && i < len(hosts) && 0 <= k && k < len(hosts[i].Paths) && result == &hosts[i].Paths[k].Backend
 //@   loop 1 invariant none: 0 <= $idx(1) && $idx(1) <= len(hosts)
 //@ end
+
+// ---------------------------------------------------------------------------
+// C01 / C07 — a backend that uses a userlist is linked to the secret the list
+// was read from, also when the list already existed (another backend read it):
+// the secret's removal must make every backend that references the list dirty
+// (the Mapper's own representation invariant is assumed at its call sites: the
+// callees of the loop body that are unknown code do not reach Mapper internals)
+//@ func (*updater).buildBackendAuthHTTP
+//@   props C01 C07
+//@   requires d != nil && d.backend != nil && d.mapper != nil
+//@   assume-pre Mapper).GetConfig KeyConfig).Get
+//@   at call TrackNames#1 assert link: $arg1 == convtypes.ResourceSecret && $arg2 == secretName && $arg3 == convtypes.ResourceHABackend && $arg4 == d.backend.ID
+//@   at call GetPasswdSecretContent#1 assert read: $arg1 == authSecret.Source.Namespace && $arg2 == authSecret.Value && len($arg3) == 2 && $arg3[0].Context == convtypes.ResourceHABackend && $arg3[0].UniqueName == d.backend.ID && $arg3[1].Context == convtypes.ResourceHAUserlist && $arg3[1].UniqueName == listName
+//@   loop 1 invariant none: 0 <= $idx(1)
+//@ end
